@@ -125,6 +125,20 @@ NEEDS = {
  'C17_5': 'machine copied after an earlier task was removed: TaskListT copy loops to _count instead of _last',
  'C20_6': 'DynamicArrayT::emplace(const&...) does not advance the count',
  'C20_7': 'contain() wraps for 249..255 bits: UNIT_COUNT 0 (same patch as C18_8)',
+ 'C02_9': 'guard re-requests the destination of a machine-level (bare) accepted request: the duplicate is not consumed and fires a spurious reenter() in a later idle step',
+ 'C02_10': 'request with a state origin accepted, later round vetoed: falls back to the origin of the accepted transition',
+ 'C05_8': 'react(): C_::deepReact takes the event by value, root and active state receive a copy',
+ 'C05_9': 'a state that defines preUpdate / postUpdate itself: preUpdate twice, postUpdate never (variant of C05_5)',
+ 'C08_8': 'payload-free updatePlan: loop and firing conditions swapped, a later task fires past an inactive origin that has an external success report',
+ 'C08_9': 'two tasks of the succeeded origin in one step: Iterator::operator++ re-reads the link of the removed task, the second task never fires (submitted for C02)',
+ 'C10_7': 'list filled once, a slot other than the highest freed, refill: TaskListT::emplace grows by _vacantHead instead of _last and writes past _items',
+ 'C11_8': 'replica with an origin in its history replays: replayTransition() keeps the stale origin',
+ 'C11_9': 'accepted transition with an origin, guard re-requests the same destination: dropped as duplicate (same patch as C07_2)',
+ 'C16_8': 'state with an injection that defines preReact: the method record is emitted after the injected callback',
+ 'C16_9': 'verbose logging, PeerRoot: query() of the apex is recorded as postReact',
+ 'C17_6': 'payload machines: transitions built by the (destination) / (origin, destination) constructors leave payloadSet uninitialised',
+ 'C17_7': 'machine copied before any task was appended: recorded success / failure reports are not copied',
+ 'C18_9': 'full list, one task removed, refill: TaskListT::remove forgets _vacantTail, the next emplace writes _items[255]',
 }
 def sh(cmd, **kw):
     return subprocess.run(cmd, shell=True, stdout=subprocess.PIPE, stderr=subprocess.STDOUT, text=True, **kw)
